@@ -66,12 +66,50 @@ def _confusable(draw, nrules):
 
 
 @st.composite
+def _conflicting(draw, n):
+    """{rule index: rhs}: rules built to be non-LL(1) (or just barely LL(1)) in one of the ways a state can claim a token twice:
+    direct terminal vs nonterminal arc to the *same* rule / another rule / a chain of rules, two nonterminal arcs, an optional
+    nonterminal before the same terminal.  Whether it really is a conflict is the reference's business."""
+    def sym(x):
+        return ('sym', x)
+    t = draw(st.sampled_from(STRINGS + TOKENS[:3]))
+    u = draw(st.sampled_from(STRINGS + TOKENS[:3]))
+    k = draw(st.integers(0, n - 1))
+    j = (k + 1 + draw(st.integers(0, n - 2))) % n if n > 1 else k
+    i = (j + 1) % n
+    rk, rj, ri = 'r%d' % k, 'r%d' % j, 'r%d' % i
+    tail = draw(st.sampled_from(TOKENS[:3]))
+    shape = draw(st.integers(0, 6))
+    if shape == 0:      # rK: t [rK] t X     (terminal vs recursive reference to the rule itself)
+        return {k: ('seq', [sym(t), ('opt', sym(rk)), sym(t), sym(tail)])}
+    if shape == 1:      # rK: t (rK | t X)* u
+        return {k: ('seq', [sym(t), ('star', ('alt', [sym(rk), ('seq', [sym(t), sym(tail)])])), sym(u)])}
+    if shape == 2:      # rK: t X | rJ Y ; rJ: t Z
+        return {k: ('alt', [('seq', [sym(t), sym(tail)]), ('seq', [sym(rj), sym(u)])]), j: ('seq', [sym(t), sym('NUMBER')])}
+    if shape == 3:      # rK: rI X | rJ Y ; rI: t ; rJ: [u] t
+        if len({k, j, i}) < 3:
+            return {k: ('alt', [sym(rj), sym(t)]), j: sym(t)}
+        return {k: ('alt', [('seq', [sym(ri), sym(tail)]), ('seq', [sym(rj), sym(u)])]), i: sym(t), j: ('seq', [('opt', sym(u)), sym(t)])}
+    if shape == 4:      # rK: [rJ] t ; rJ: t X
+        return {k: ('seq', [('opt', sym(rj)), sym(t)]), j: ('seq', [sym(t), sym(tail)])}
+    if shape == 5:      # chain: rK: rJ | t ; rJ: rI ; rI: t
+        if len({k, j, i}) < 3:
+            return {k: ('alt', [sym(rj), sym(t)]), j: sym(t)}
+        return {k: ('alt', [sym(rj), sym(t)]), j: sym(ri), i: ('seq', [sym(t), sym(tail)])}
+    # barely LL(1): same shapes with two different terminals
+    return {k: ('alt', [('seq', [sym(t), sym(tail)]), ('seq', [sym(rj), sym(u)])]), j: ('seq', [sym(u), sym('NUMBER')])}
+
+
+@st.composite
 def random_grammar(draw):
     n = draw(st.integers(2, 7))
     depth = draw(st.integers(1, 4))
     rules = [draw(_rhs(n, depth)) for _ in range(n)]
     if draw(st.integers(0, 4)) == 0:
         rules[draw(st.integers(0, n - 1))] = draw(_confusable(n))
+    if draw(st.integers(0, 4)) == 0:
+        for idx, rhs in draw(_conflicting(n)).items():
+            rules[idx] = rhs
     layout = draw(st.lists(st.integers(0, 5), min_size=8, max_size=8))
     return {'kind': 'random', 'rules': [to_json(r) for r in rules], 'layout': layout}
 
